@@ -32,10 +32,17 @@ type scnFamily struct {
 }
 
 func (sc *scnCheck) run(w *fw.W) {
-	o, bound, modeSets := sc.Opts(w.Tier)
-	fams := []scnFamily{{o, bound, modeSets}}
-	if sc.More != nil {
-		fams = append(fams, sc.More(w.Tier)...)
+	var fams []scnFamily
+	tiers := []string{w.Tier}
+	if w.Thorough() {
+		tiers = []string{"quick", "thorough"} // the quick families first, then the deeper ones
+	}
+	for _, t := range tiers {
+		o, bound, modeSets := sc.Opts(t)
+		fams = append(fams, scnFamily{o, bound, modeSets})
+		if sc.More != nil {
+			fams = append(fams, sc.More(t)...)
+		}
 	}
 	for fi, f := range fams {
 		sc.runFamily(w, fi, f)
